@@ -417,7 +417,9 @@ def trend_case(R, v, degree, intercept, rel_fh, kind="range", l0=0, mode="fit", 
     if not (mode == "refit-shorter" and absolute):
         R.check("trend-forecast-index", list(got.index) == want_index, f"{desc}: index {list(got.index)} expected {want_index}")
     scale = max(1.0, float(np.max(np.abs(exp))))
-    R.check(key + ("-in-sample" if any(h <= 0 for h in rel_fh) else "") + ("" if mode in ("fit", "fit-fh") else "-after-" + mode),
+    suffix = {"fit": "", "fit-fh": "", "predict-twice": "-after-refit-or-repeat", "update-refit": "-after-refit-or-repeat",
+              "refit-shorter": "-after-refit-or-repeat"}.get(mode, "-after-cutoff-update")
+    R.check(key + (suffix or ("-in-sample" if any(h <= 0 for h in rel_fh) else "")),
             _same(got.to_numpy(), exp, rtol=1e-6, atol=1e-7 * scale), f"{desc}: got {_fmt(got.to_numpy())} expected {_fmt(exp)}")
 
 
@@ -851,7 +853,26 @@ class _one_thread:
 
 def bounded(tier, seed):
     rng = random.Random(seed)
-    R = Recorder("TODO")
+    q = tier == "quick"
+    R = Recorder(
+        f"NaiveForecaster: every series length 1..{8 if q else 12} (seeded random values), strategies last/mean/drift, sp 1..{4 if q else 5}, "
+        f"window_length None and every value sp..n (multiples of sp or not), ~{14 if q else 20} relative horizons per configuration (consecutive, "
+        f"gapped, beyond one/two/three seasons, in-sample, whole in-sample range, mixed) plus absolute horizons, fh given in fit, repeated "
+        f"predict, fit->update(update_params False/True)->predict for {'half of the' if q else 'all'} split points, two updates, update_predict_single, "
+        f"update_predict with sliding cutoffs, set_params+refit between 8 configurations, index RangeIndex@0/@3, integer Index@5, monthly "
+        f"PeriodIndex (n=5,8), series with missing values at 7 position patterns (n={'6,8' if q else '6,8,9,11'}); "
+        f"PolynomialTrendForecaster: n 3..{9 if q else 13}, degree 1..{3 if q else 4}, with/without intercept, 9 relative + 2 absolute horizons, "
+        f"fit/fit-with-fh/repeated predict/update without and with refit/two updates/update_predict_single/refit on shorter series/"
+        f"update_predict/set_params+refit, LinearRegression() as regressor; ExponentialSmoothing and AutoETS against statsmodels called "
+        f"directly: sp in {(4,) if q else (4, 3, 2, 6)}, two positive series each (trend+season, flat noisy; n 14..28), all trend/damped/"
+        f"seasonal combinations, use_boxcox in (False, True, 0.0, 0, 0.5{'' if q else ', 1.0, -0.5'}), initialisation estimated/heuristic/"
+        f"legacy-heuristic/known, ETS error add/mul x trend x damped x seasonal, maxiter/start_params/bounds pass-through, 8 horizons each "
+        f"(in-sample, gapped, beyond one season, absolute), update without/with refit, set_params+refit, AutoETS(auto=True) for "
+        f"{2 if q else 6} option sets; ThetaForecaster: n in {(13, 20) if q else (12, 13, 17, 20, 23, 26)}, sp 1..{4 if q else 6}, "
+        f"deseasonalize on/off, initial_level None/44, 8 out-of-sample horizons + absolute + fh in fit + refit. "
+        f"NOT covered: DatetimeIndex (no freq support under the shim), PeriodIndex for trend/adapters (to_absolute_int fails under pandas 2), "
+        f"in-sample and update sequences of ThetaForecaster (not documented), prediction intervals, statsmodels 'log' box-cox (rejected by "
+        f"statsmodels 0.15), missing values for trend/adapters (unsupported), n_jobs != None.")
     with _one_thread():
         run_naive(R, tier, rng)
         run_naive_update_predict(R, tier, rng)
@@ -862,6 +883,96 @@ def bounded(tier, seed):
     return R.result()
 
 
+def _floats_from_model(model, name, n, rng):
+    tab = model.get(name)
+    out = []
+    if isinstance(tab, (list, tuple)):
+        for x in tab[:n]:
+            try:
+                out.append(float(x))
+            except (TypeError, ValueError):
+                out.append(round(rng.uniform(5, 30), 3))
+    while len(out) < n:
+        out.append(round(10.0 + 3.0 * len(out) + rng.uniform(-6, 6), 3))
+    return np.array(out, dtype=float)
+
+
 def replay(rec):
+    m = rec.get("model") or {}
+    target, case = str(rec.get("target", "")), str(rec.get("case", ""))
+    text = (target + " " + case + " " + str(rec.get("obligation", ""))).lower()
+    rng = random.Random(0)
     R = Recorder("replay")
-    return {"reproduced": bool(R.failures), "detail": R.failures[:3], "input": {}}
+    n = min(max(mint(m, "n", 7), 2), 30)
+    sp = min(max(mint(m, "sp", 1), 1), 12)
+    w = mint(m, "window_length", 0) or mint(m, "w", 0)
+    w = None if w <= 0 else min(w, n)
+    nf = min(max(mint(m, "len(fh)", 0), 0), 8)
+    fh = []
+    if nf:
+        tab = m.get("fh") or []
+        for i in range(nf):
+            try:
+                fh.append(int(tab[i]))
+            except (IndexError, TypeError, ValueError):
+                fh.append(i + 1)
+    fh = tuple(sorted(set(h for h in fh if n - 1 + h >= 0 and h <= 40))) or tuple(sorted({1, 2, sp + 1}))
+    l0 = mint(m, "l0", 3)
+    inp = {"n": n, "sp": sp, "window_length": w, "fh": list(fh), "l0": l0}
+    with _one_thread():
+        if "naive" in text:
+            v = _floats_from_model(m, "y", n, rng)
+            inp["y"] = v.tolist()
+            strategies = [s for s in ("last", "mean", "drift") if s in text] or ["last", "mean", "drift"]
+            for strategy in strategies:
+                spp = 1 if strategy == "drift" else sp
+                for wl in {w, None}:
+                    if strategy == "last":
+                        wl = None
+                    if (strategy == "mean" and wl is not None and wl < spp) or (strategy == "drift" and wl == 1) or (strategy == "last" and spp > n):
+                        continue
+                    for ff in (fh, (1, 2, spp + 1), tuple(range(1, 2 * spp + 2)), (-1, 0, 1)):
+                        naive_case(R, v, strategy, spp, wl, ff, "range", l0)
+                    k = max(n // 2, wl or 1, spp, 2)
+                    if k < n and (wl is not None or strategy == "last"):
+                        naive_case(R, v, strategy, spp, wl, fh if fh[0] > 0 else (1, 2), "range", l0, mode="update", k=k)
+        elif "trend" in text or "polynomial" in text:
+            degree = min(max(mint(m, "degree", 1), 1), 4)
+            n = max(n, degree + 3)
+            v = _floats_from_model(m, "y", n, rng)
+            inp.update(n=n, degree=degree, y=v.tolist())
+            for intercept in (True, False):
+                for ff in (fh, (1, 2, 3), (-2, 0, 2)):
+                    trend_case(R, v, degree, intercept, ff, "range", l0)
+                    for mode in ("update", "update-refit", "update-predict-single"):
+                        trend_case(R, v, degree, intercept, ff, "range", l0, mode=mode, k=max(degree + 2, n - 2))
+        elif "theta" in text:
+            n = max(n, 2 * sp + 5)
+            v = _pos_series(rng, n, "season", sp)
+            inp.update(n=n, y=v.tolist())
+            for deseason in (True, False):
+                for ff in (tuple(h for h in fh if h > 0) or (1, 2), (1, 2, 3), (2, 5)):
+                    theta_case(R, v, sp, deseason, None, ff, l0)
+        elif "ets" in text:
+            sp = max(sp, 2)
+            v = _pos_series(rng, max(n, 4 * sp + 4), "season", sp)
+            inp.update(n=len(v), y=v.tolist())
+            for o in ets_option_sets(sp, "quick")[:30:3]:
+                adapter_case(R, "ets", v, o, "range", l0, fhs=[fh, (1, 2, 3)])
+        elif "smoothing" in text or "statsmodels" in text or "adapter" in text:
+            sp = max(sp, 2)
+            v = _pos_series(rng, max(n, 4 * sp + 4), "season", sp)
+            inp.update(n=len(v), y=v.tolist())
+            for o in es_option_sets(sp, "quick"):
+                if o.get("seasonal") in (None,) or "use_boxcox" in o:
+                    adapter_case(R, "es", v, o, "range", l0, fhs=[fh, (1, 2, 3)])
+        else:
+            for nn in (4, 6):
+                v = _values(rng, nn)
+                for strategy, spp, wl in naive_configs(nn, "quick"):
+                    naive_case(R, v, strategy, spp, wl, (1, 2, spp + 1), "range", l0)
+                trend_case(R, v, 1, True, (1, 2), "range", l0, mode="update", k=3)
+    # the known defects of the unchanged tree (KF:*) are reported separately: they do not confirm an unrelated counterexample
+    f = [x for x in R.failures if not x["key"].startswith("KF:")]
+    known = [x for x in R.failures if x["key"].startswith("KF:")]
+    return {"reproduced": bool(f), "detail": f[:3], "known": known[:3], "input": inp}
